@@ -7,6 +7,7 @@
 package math
 
 import (
+	cryptorand "crypto/rand"
 	"crypto/rsa"
 	"math"
 	"math/big"
@@ -117,9 +118,10 @@ func SplitPQ(pq *big.Int) (p1, p2 *big.Int) {
 }
 
 func MakeGAB(g int32, g_a, dh_prime *big.Int) (b, g_b, g_ab *big.Int) {
-	rnd := rand.New(rand.NewSource(time.Now().UnixNano())) //nolint: gosec зачем
+	// b is secret exponent of diffie hellman, must be taken from the OS cryptographic random source
 	rndmax := big.NewInt(0).SetBit(big.NewInt(0), 2048, 1)
-	b = big.NewInt(0).Rand(rnd, rndmax)
+	b, err := cryptorand.Int(cryptorand.Reader, rndmax)
+	dry.PanicIfErr(err)
 	if forced := verifExponent(); forced != nil {
 		b = forced
 	}
